@@ -245,13 +245,28 @@ def check(ctx):
         if not isinstance(arg, ast.Name):
             ctx.fail(f, c, "the target is called with an expression that is not the original-space point computed by the inverse transform", construct=f"target({canon(arg)})")
             continue
-        defs = reaching_assignments(prog, f, arg.id, c)
         xparam = [p for p in f.params if p != "self"][0]
+        from .common import deref_expr
+
+        # definitions reaching the call; a local with several definitions that is neither an inverse transform nor the
+        # (reshaped) parameter is expanded into its own definitions (if/else assignment to a temporary)
+        defs, work, seen_names = [], list(reaching_assignments(prog, f, arg.id, c)), {arg.id}
+        while work:
+            d = work.pop()
+            if isinstance(d, ast.Name) and d.id != xparam and d.id not in seen_names and not _is_reshaped_param(prog, f, d, xparam) \
+                    and not any(isinstance(n, ast.Call) and isinstance(n.func, ast.Attribute) and n.func.attr == R.inverse.name for n in ast.walk(deref_expr(prog, f, d))):
+                sub = reaching_assignments(prog, f, d.id, d)
+                if sub:
+                    seen_names.add(d.id)
+                    work += sub
+                    continue
+            defs.append(d)
         for d in defs:
-            inv = [n for n in ast.walk(d) if isinstance(n, ast.Call) and isinstance(n.func, ast.Attribute) and n.func.attr == R.inverse.name]
+            d_full = deref_expr(prog, f, d)
+            inv = [n for n in ast.walk(d_full) if isinstance(n, ast.Call) and isinstance(n.func, ast.Attribute) and n.func.attr == R.inverse.name]
             if inv:
                 ctx.ok(f, c, f"target argument {arg.id} = {canon(d)[:60]} (clamped by R1)")
-            elif isinstance(d, ast.Name) and d.id == xparam:
+            elif isinstance(d, ast.Name) and (d.id == xparam or _is_reshaped_param(prog, f, d, xparam)):
                 # only without a transformer; BADS always provides one
                 st = d
                 while not isinstance(st, ast.stmt):
@@ -435,6 +450,16 @@ def check(ctx):
     ctx.assume("NaN coordinates are excluded by the finite-bounds validation (min/max propagate NaN)")
     ctx.assume("effective bounds lb + c*range / ub - c*range (c > 0 literal) lie inside the hard bounds; rounding to the grid moves a value by at most half a cell")
     ctx.assume("numpy minimum/maximum/clip and boolean row selection semantics")
+
+
+def _is_reshaped_param(prog, fn, name_node, param) -> bool:
+    """``name_node`` holds the parameter itself, passed through copies / reshapes only (provenance dataflow)."""
+    from ..flow import TagFlow
+    from .c12 import ProvPolicy
+
+    fl = TagFlow(prog, fn, ProvPolicy([param]))
+    tg = fl.tags(name_node)
+    return tg is not None and f"P:{param}" in tg
 
 
 def _validated_after(prog, fn, store_stmt, value) -> bool:
